@@ -185,6 +185,9 @@ def _work(sim: Sim, job: tuple, fnd: list[dict], stop_path: str) -> dict:
                         out = sim.execute(trace)
                     finally:
                         signal.alarm(0)
+                        # also *after* the trace: the generator of the next case / run may do a dry run of its own (C13 counts the
+                        # line events of a target), which must not see what this trace left behind (debug mode, settings)
+                        env.reset_settings()
                     res["evals"] += 1
                     res["stats"].update(out.stats)
                     res["digests"].append((run, case_no, out.digest))
